@@ -217,8 +217,13 @@ def finish(ctx, level, explanation, assumptions, technique, extra_cov=None, seed
         'wall_s': round(time.time() - ctx.t0, 2),
         'violations': len(viol),
     }
-    os.makedirs(os.path.join(VERIF, 'evidence'), exist_ok=True)
-    with open(os.path.join(VERIF, 'evidence', ctx.prop + '.json'), 'w') as fh:
+    # evidence/<id>.json describes runs against /repo only; a run against another checkout (MLS_REPO: self-test copies, seeded
+    # worktrees) keeps its evidence beside its private cache
+    evdir = os.path.join(VERIF, 'evidence')
+    if os.environ.get('MLS_REPO') and os.path.realpath(os.environ['MLS_REPO']) != '/repo':
+        evdir = os.path.join(os.environ.get('MLS_VERIF_CACHE') or os.path.join(VERIF, '.cache'), 'evidence-other')
+    os.makedirs(evdir, exist_ok=True)
+    with open(os.path.join(evdir, ctx.prop + '.json'), 'w') as fh:
         json.dump(ev, fh, indent=1)
     print('%s: %d rule instances over configs %s; %d hold, %d known finding(s), %d violation(s); %.1fs'
           % (ctx.prop, len(insts), ','.join(ctx.analysed), holds, len(known_hit), len(viol), time.time() - ctx.t0))
